@@ -400,8 +400,9 @@ class IkeSa(object):
 
         self.log_info("Received acquire from policy with index={}".format(index))
         # Create the ChildSa object with the values we know so far
+        # the offer is a copy: the SPI is written into it, and the configured proposal is shared by every IKE_SA
         child_sa = ChildSa(inbound_spi=os.urandom(4), outbound_spi=b'\0' * 4, original_proposal=ipsec_conf.proposal,
-                           proposal=ipsec_conf.proposal, tsi=(tsi, ipsec_conf.my_ts),
+                           proposal=ipsec_conf.proposal.copy(), tsi=(tsi, ipsec_conf.my_ts),
                            tsr=(tsr, ipsec_conf.peer_ts), mode=ipsec_conf.mode, lifetime=ipsec_conf.lifetime)
         if self.state == IkeSa.State.INITIAL:
             child_sa._replace(proposal=child_sa.proposal.copy_without_dh_transforms())
@@ -429,7 +430,8 @@ class IkeSa(object):
         if not hard:
             # Create the ChildSa object with the values we know so far
             new_child_sa = ChildSa(inbound_spi=os.urandom(4), outbound_spi=b'\0' * 4, mode=child_sa.mode,
-                                   proposal=child_sa.original_proposal, original_proposal=child_sa.original_proposal,
+                                   proposal=child_sa.original_proposal.copy(),
+                                   original_proposal=child_sa.original_proposal,
                                    tsi=[child_sa.tsi], tsr=[child_sa.tsr], lifetime=child_sa.lifetime)
             request = self.generate_create_child_sa_request(new_child_sa, child_sa)
         # if this is a hard expire, delete the CHILD SA
@@ -535,7 +537,7 @@ class IkeSa(object):
 
     def _generate_ike_sa_negotiation_request(self):
         # create the Payload SA
-        self.chosen_proposal = self.configuration.proposal
+        self.chosen_proposal = self.configuration.proposal.copy()
         self.chosen_proposal.spi = self.my_spi
         payload_sa = PayloadSA([self.chosen_proposal])
 
